@@ -432,6 +432,13 @@ func (f *Footer) DecRef() {
 		f.SegmentLocs.DecRef()
 		f.SegmentLocs = nil
 		f.ss = nil
+		if f.refs == 0 {
+			// The ref-count that this footer holds on each of its
+			// child footers is released along with it.
+			for _, childFooter := range f.ChildFooters {
+				childFooter.DecRef()
+			}
+		}
 	}
 	f.m.Unlock()
 }
